@@ -2,6 +2,7 @@ SPECIFICATION Spec
 CONSTANTS
   MaxHeader = 3
   MaxRows = 3
+  Part = "table"
   Bug = "lossy"
 INVARIANT TypeOK
 INVARIANT TableTotalExclusive
